@@ -18,6 +18,7 @@ import (
 	"runtime/metrics"
 
 	"gitlab.com/gomidi/midi/v2/internal/verifh/engine"
+	"gitlab.com/gomidi/midi/v2/internal/verifh/faultio"
 	"gitlab.com/gomidi/midi/v2/internal/verifh/refsmf"
 	"gitlab.com/gomidi/midi/v2/internal/verifh/smfgen"
 	sp "gitlab.com/gomidi/midi/v2/internal/verifh/smfspace"
@@ -31,7 +32,7 @@ var alphabet = []byte{0x00, 0x01, 0x03, 0x2F, 0x40, 0x51, 0x7F, 0x80, 0x81, 0x90
 // budgetReader fails the case (not the process) if the library asks for more
 // reads than any terminating parse of the input could need.
 type budgetReader struct {
-	r      *bytes.Reader
+	r      io.Reader
 	budget int
 }
 
@@ -61,7 +62,16 @@ type outcome struct {
 }
 
 func read(data []byte) (o outcome) {
-	br := &budgetReader{r: bytes.NewReader(data), budget: 4*len(data) + 64}
+	var src io.Reader = bytes.NewReader(data)
+	switch readerKind {
+	case 1:
+		src = &faultio.FragReader{Data: data, MaxPerCall: 1}
+	case 2:
+		src = &faultio.FragReader{Data: data, ZeroEvery: true}
+	case 3:
+		src = &faultio.FragReader{Data: data, EOFWithData: true}
+	}
+	br := &budgetReader{r: src, budget: 8*len(data) + 64}
 	a0 := allocated()
 	o.c = engine.Catch(func() {
 		defer func() {
@@ -78,6 +88,13 @@ func read(data []byte) (o outcome) {
 	o.alloc = allocated() - a0
 	return
 }
+
+// readerKind selects the source read() hands to the library: 0 memory, 1 one
+// byte per call, 2 every other call answers (0, nil), 3 the last bytes come
+// together with io.EOF. What a prefix may yield does not depend on it.
+var readerKind int
+
+var readerNames = []string{"memory", "one-byte-per-call", "zero-byte-reads", "eof-with-data"}
 
 func allocBound(n int) uint64 { return 64*1024 + 256*uint64(n) }
 
@@ -384,6 +401,14 @@ func isPrefix(full, part []refsmf.Event) bool {
 }
 
 func truncations(file []byte, exp *refsmf.File, label string) {
+	for k := range readerNames {
+		readerKind = k
+		truncationsKind(file, exp, label)
+	}
+	readerKind = 0
+}
+
+func truncationsKind(file []byte, exp *refsmf.File, label string) {
 	for p := 0; p < len(file); p++ {
 		pre := file[:p]
 		o := basic(pre, "truncation", "truncation")
@@ -409,12 +434,15 @@ func truncations(file []byte, exp *refsmf.File, label string) {
 		}
 		if bad != "" {
 			sig := "prefix:" + bad
+			if readerKind != 0 {
+				sig += ":reader=" + readerNames[readerKind]
+			}
 			if ctx.SigCount(sig) < 20 {
 				var got []string
 				for _, t := range o.val.Tracks {
 					got = append(got, renderEvents(sp.FromTrack(t)))
 				}
-				ctx.Violation(sig, map[string]interface{}{"kind": "truncation", "file": engine.Hex(file), "cut": p, "family": label,
+				ctx.Violation(sig, map[string]interface{}{"kind": "truncation", "file": engine.Hex(file), "cut": p, "family": label, "reader": readerNames[readerKind],
 					"what": "accepted prefix is not an event-for-event prefix of the original", "got_tracks": got})
 			}
 		}
@@ -539,6 +567,70 @@ func deepInputs() {
 	ctx.Add("deep_inputs", 3)
 }
 
+// twoPrefixes: two proper prefixes (of different files, cut inside a channel
+// message, inside a meta payload and at an event boundary) are read by two
+// threads that are switched inside Read calls, every schedule with at most two
+// switches: each result must be what the same prefix yields when read alone.
+func twoPrefixes() {
+	toks := smfgen.Tokens()
+	dls := smfgen.Deltas()
+	var inputs [][]byte
+	for _, pick := range [][]int{{0, 1}, {4, 2}, {5, 0}} {
+		var seq []smfgen.Timed
+		for k, ti := range pick {
+			seq = append(seq, smfgen.Timed{T: &toks[ti], D: &dls[(k+1)%4]})
+		}
+		body, evs, ok := smfgen.Track(seq, &dls[1])
+		if !ok {
+			continue
+		}
+		f, _ := smfgen.File(smfgen.BaseShape(), body, evs)
+		for _, back := range []int{0, 1, 2, 4, 6} {
+			if len(f)-back > 23 {
+				inputs = append(inputs, f[:len(f)-back])
+			}
+		}
+	}
+	render := func(data []byte, yield func()) string {
+		var got *smf.SMF
+		var err error
+		c := engine.Catch(func() { got, err = smf.ReadFrom(&faultio.YieldReader{R: bytes.NewReader(data), Yield: yield}) })
+		switch {
+		case c.Panicked:
+			return "panic " + c.Value
+		case err != nil:
+			return "error"
+		}
+		out := fmt.Sprintf("fmt%d div%d", got.Format(), sp.Division(got.TimeFormat))
+		for _, t := range got.Tracks {
+			out += " | " + renderEvents(sp.FromTrack(t))
+		}
+		return out
+	}
+	var iv engine.Interleaver
+	for a := range inputs {
+		for b := a; b < len(inputs); b++ {
+			wa, wb := render(inputs[a], func() {}), render(inputs[b], func() {})
+			var ga, gb string
+			n := iv.AllSchedules(
+				func(y func()) { ga = render(inputs[a], y) },
+				func(y func()) { gb = render(inputs[b], y) },
+				func(first, i, j int) {
+					ctx.Eval()
+					if ga != wa || gb != wb {
+						if ctx.SigCount("concurrent-readers:interference") < 5 {
+							ctx.Violation("concurrent-readers:interference", map[string]interface{}{"kind": "two-prefixes", "input_a": engine.Hex(inputs[a]), "input_b": engine.Hex(inputs[b]),
+								"first": first, "switch_first_at_read": i, "switch_second_at_read": j,
+								"what": fmt.Sprintf("two inputs read by two threads switched inside Read calls: A gives %q (alone %q), B gives %q (alone %q)", ga, wa, gb, wb)})
+						}
+					}
+				})
+			ctx.Add("two_reader_schedules", int64(n))
+			ctx.NontrivialN(int64(n))
+		}
+	}
+}
+
 func report2(sig, what string) {
 	ctx.Violation(sig, map[string]interface{}{"kind": "deep", "what": what})
 }
@@ -557,6 +649,7 @@ func main() {
 	ctx.Jobs("header-fields", 16, func(j int) { headerFields(j, 16) })
 	ctx.Jobs("substitutions", 32, func(j int) { substitutions(j, 32) })
 	ctx.Jobs("deep-inputs", 1, func(int) { deepInputs() })
+	ctx.Jobs("two-prefixes", 1, func(int) { twoPrefixes() })
 	nal := len(smfgen.Tokens()) * 4
 	ctx.Jobs("truncations", nal, func(j int) { truncationFamily(j) })
 	ctx.Sample(map[string]interface{}{"truncation": "every proper prefix of: MThd fmt0 1trk div96 | MTrk 0:NoteOn0 128:Text128 128:EOT", "check": "error, or tracks are event-for-event prefixes"})
@@ -577,6 +670,10 @@ func replay() {
 			return
 		}
 		truncations(file, exp, "replay")
+		ctx.Finish("replay")
+	}
+	if m["kind"] == "two-prefixes" {
+		twoPrefixes()
 		ctx.Finish("replay")
 	}
 	if m["kind"] == "deep" || m["kind"] == "job" {
